@@ -86,3 +86,7 @@ Definition opt_list_eqb (a b : option (list Z)) : bool :=
   | Some x, Some y => list_eqb x y
   | _, _ => false
   end.
+
+(* Python's lexicographic order on pairs of ints *)
+Definition pairZ_ltb (a b : Z * Z) : bool := (fst a <? fst b) || ((fst a =? fst b) && (snd a <? snd b)).
+Definition pairZ_leb (a b : Z * Z) : bool := (fst a <? fst b) || ((fst a =? fst b) && (snd a <=? snd b)).
